@@ -16,7 +16,7 @@ ALL_SHAPES = list(session.SHAPES)
 
 def _one_shape(args):
     """One worker: TLC (properties + graph export) once for the shape, then replay under each strategy."""
-    (shape, level, nbeh, seed, strategies, scratch_dir, workers, nsim, sim_depth) = args
+    (shape, level, nbeh, seed, strategies, scratch_dir, workers, nsim, sim_depth, sys_depth, sys_budget) = args
 
     class _Scratch:
         dir = scratch_dir
@@ -51,6 +51,27 @@ def _one_shape(args):
                 tr = d.run_behaviour(level + 3)
                 if i < 2:
                     traces.append(tr)
+            # systematic enumeration: every sequence of at most sys_depth modifying/control calls from each seeded
+            # open session, on the reduced alphabet (one attribute value, reads asked through `view`)
+            if sys_depth and j == 0:
+                n2, e2, i2, r2 = tlc.dump_graph('PonySession', session.cfg_props(shape, sys_depth + 1, vals=(1,), reads=False),
+                                                ctx.scratch, tag='PonySessionSys-%s' % shape, workers=workers)
+                g2 = session.Graph(n2, e2, i2)
+                d.g = g2
+                opens = [i for i in i2 if n2[i]['sess'] == 'open']
+                done_all = True
+                nseq = 0
+                t_sys = time.time()
+                for k, i in enumerate(opens):
+                    share = sys_budget * (k + 1) / len(opens)
+                    cnt, done = d.run_systematic(sys_depth, t_sys + share, i)
+                    nseq += cnt
+                    done_all = done_all and done
+                d.g = g
+                out['sys_sequences'] = nseq
+                out['sys_exhaustive'] = done_all
+                out['sys_states'] = r2.distinct
+                out['sys_transitions'] = r2.generated
             # deep behaviours: tlc -simulate (one concrete branch each, depth well beyond the exported graph)
             if nsim:
                 cfg = session.cfg_for(shape, 99, props=True) + 'ACTION_CONSTRAINT StepProps\n'
@@ -102,13 +123,13 @@ QUICK_SHAPES = {
 def run(ctx, prop, shapes=None, strategies=('default',), focus=None):
     quick = ctx.tier == 'quick'
     shapes = shapes or (QUICK_SHAPES[prop] if quick else ALL_SHAPES)
-    level = 4 if quick else 5
-    nbeh = 1500 if quick else 8000
-    nsim = 250 if quick else 2500
+    level = 3 if quick else 5
+    nbeh = 700 if quick else 8000
+    nsim = 120 if quick else 2500
     if len(strategies) > 1:
         nbeh = nbeh // 2
         nsim = nsim // 3
-    jobs = [(shape, level, nbeh, ctx.seed * 1000 + i * 10, tuple(strategies), ctx.scratch.dir, 4 if quick else 2, nsim, 14 if quick else 20) for i, shape in enumerate(shapes)]
+    jobs = [(shape, level, nbeh, ctx.seed * 1000 + i * 10, tuple(strategies), ctx.scratch.dir, 4 if quick else 2, nsim, 14 if quick else 20, 3 if quick else 4, 20 if quick else 420) for i, shape in enumerate(shapes)]
     mp = multiprocessing.get_context('fork')
     with mp.Pool(min(len(jobs), 8)) as pool:
         results = [r for rs in pool.map(_one_shape, jobs) for r in rs]
@@ -120,8 +141,8 @@ def run(ctx, prop, shapes=None, strategies=('default',), focus=None):
     for r in results:
         if 'machinery' in r:
             raise MachineryError('shape %s: %s' % (r['shape'], r['machinery']))
-        states += r.get('props_states', 0)
-        transitions += r.get('props_transitions', 0)
+        states += r.get('props_states', 0) + r.get('sys_states', 0)
+        transitions += r.get('props_transitions', 0) + r.get('sys_transitions', 0)
         behaviours += r['stats']['behaviours']
         steps += r['stats']['steps']
         for k, v in r['stats'].items():
@@ -165,6 +186,9 @@ def run(ctx, prop, shapes=None, strategies=('default',), focus=None):
         'graph_states_exported': sum(r['states'] for r in results),
         'graph_transitions_exported': sum(r['transitions'] for r in results),
         'graph_transitions_replayed': sum(r['edges_visited'] for r in results),
+        'systematic_sequences': sum(r.get('sys_sequences', 0) for r in results),
+        'systematic_depth': 3 if quick else 4,
+        'systematic_exhaustive_shapes': sorted(r['shape'] for r in results if r.get('sys_exhaustive')),
         'simulated_deep_behaviours': sum(r.get('sim_behaviours', 0) for r in results),
         'simulated_inconclusive': sum(r['stats'].get('sim_inconclusive', 0) for r in results),
         'free_reads': sum(r['stats'].get('free_reads', 0) for r in results),
